@@ -147,10 +147,13 @@ type c08Observed struct {
 	ClientSt  int        `json:"client_status,omitempty"`
 	After     *errFields `json:"error_object_after,omitempty"`
 	RawBody   string     `json:"raw_body,omitempty"`
+	Hooks     []string   `json:"filter_hooks,omitempty"` // the filter hooks that ran, in order (pre<i> / post<i>)
+	Stamp     bool       `json:"stamp_header,omitempty"` // the response carries the header a PostRequest hook sets
 }
 
 type c08Case struct {
 	Mount     string      `json:"mount"`
+	Filters   []string    `json:"filters,omitempty"` // the server's filters, in registration order (env.go recFilter kinds)
 	Transport string      `json:"transport"`
 	Method    string      `json:"method"`
 	Kind      string      `json:"register"`
@@ -188,6 +191,9 @@ func buildErr(bits int, status int32) *common.ErrorResponse {
 
 func observe(e *env, cr callResult, errObj *common.ErrorResponse) c08Observed {
 	o := c08Observed{Invoked: len(invocations())}
+	if len(e.Mount.Filters) > 0 {
+		o.Hooks = hookTrace()
+	}
 	w := e.T.last()
 	if cr.Paniced != "" {
 		o.Crashed, o.CrashText = true, "client panicked: "+cr.Paniced
@@ -202,6 +208,7 @@ func observe(e *env, cr callResult, errObj *common.ErrorResponse) c08Observed {
 		o.Status = w.Status
 		o.ErrHeader = strings.ToLower(w.ResHeader.Get(restli.ErrorResponseHeader)) == "true"
 		o.IdHeader = w.ResHeader.Get(restli.IDHeader) != ""
+		o.Stamp = w.ResHeader.Get(stampHeader) != ""
 		ct := w.ResHeader.Get("Content-Type")
 		switch {
 		case w.ResBody == "":
@@ -299,6 +306,29 @@ func coqDefect(d string) string {
 	return "RqOk"
 }
 
+// the hook results of the server's filters (Http/Status.v filter): what PreRequest / PostRequest return
+func coqFilters(kinds []string) string {
+	errResp := func(status int, msg string) string {
+		return fmt.Sprintf("(FErrResp (mkErr (Some (%d)%%Z) None None (Some %s) None None None None None false))", status, hx.CoqBytes(msg))
+	}
+	items := make([]string, len(kinds))
+	for i, k := range kinds {
+		pre, post := "FOk", "FOk"
+		switch k {
+		case "pre-plain":
+			pre = "(FPlain " + hx.CoqBytes(filterPreMsg) + ")"
+		case "pre-errresp":
+			pre = errResp(filterPreStatus, filterPreRespMsg)
+		case "post-plain":
+			post = "(FPlain " + hx.CoqBytes(filterPostMsg) + ")"
+		case "post-errresp":
+			post = errResp(filterPostStatus, filterPostRespMsg)
+		}
+		items[i] = "{| f_pre := " + pre + "; f_post := " + post + " |}"
+	}
+	return "[" + strings.Join(items, "; ") + "]"
+}
+
 func (c *c08Case) coq() string {
 	heap, impl := coqImpl(&c.Scenario)
 	o := &c.Observed
@@ -332,9 +362,9 @@ func (c *c08Case) coq() string {
 	if o.After != nil {
 		after = "[" + o.After.coq() + "]"
 	}
-	return fmt.Sprintf("{| c_meth := {| m_kind := Register%s; m_name := %s |}; c_heap := %s; c_defect := %s; c_impl := %s;\n"+
+	return fmt.Sprintf("{| c_meth := {| m_kind := Register%s; m_name := %s |}; c_filters := %s; c_heap := %s; c_defect := %s; c_impl := %s;\n"+
 		"    o_crashed := %s; o_invoked := %s; o_status := (%d)%%Z; o_errhdr := %s; o_idhdr := %s; o_body := %s; o_client := %s; o_after := %s |}",
-		c.Kind, hx.CoqBytes(c.Name), heap, coqDefect(c.Scenario.Defect), impl, hx.CoqBool(o.Crashed), hx.CoqBool(o.Invoked > 0), o.Status,
+		c.Kind, hx.CoqBytes(c.Name), coqFilters(c.Filters), heap, coqDefect(c.Scenario.Defect), impl, hx.CoqBool(o.Crashed), hx.CoqBool(o.Invoked > 0), o.Status,
 		hx.CoqBool(o.ErrHeader), hx.CoqBool(o.IdHeader), body, cl, after)
 }
 
@@ -416,6 +446,9 @@ func (d *c08) oracle(c *c08Case, mi *methodInfo, before *errFields, clientArgsOK
 	}
 	if o.Body == "bad" {
 		fail("body-incomplete:"+sc.Kind, "the response body is not a complete JSON document")
+	}
+	if len(c.Filters) > 0 && d.filterOracle(c, mi) {
+		return // the reply is a filter's failure
 	}
 	if sc.Defect != "" {
 		if o.Invoked > 0 {
@@ -499,6 +532,120 @@ func (d *c08) oracle(c *c08Case, mi *methodInfo, before *errFields, clientArgsOK
 	}
 }
 
+// first failing hook: PreRequest hooks run in registration order, PostRequest hooks in reverse order; -1 when none fails
+func firstFailing(kinds []string, hook string) int {
+	if hook == "pre" {
+		for i, k := range kinds {
+			if strings.HasPrefix(k, "pre-") {
+				return i
+			}
+		}
+		return -1
+	}
+	for i := len(kinds) - 1; i >= 0; i-- {
+		if strings.HasPrefix(kinds[i], "post-") {
+			return i
+		}
+	}
+	return -1
+}
+
+// A server with filters, written from the property text: PreRequest hooks run in order before the method (the first failure
+// answers the request, the method is not invoked); PostRequest hooks run in reverse order only after the method SUCCEEDED (the
+// first failure answers the request); a failure of the method is delivered as without filters - no hook may replace or drop
+// it; hooks that do not fail leave the reply as it is without filters (plus whatever headers they add).  Returns true when a
+// filter's failure decides the reply (checked here), false when the reply must be what it is without filters (checked by the
+// caller's ordinary oracle).
+func (d *c08) filterOracle(c *c08Case, mi *methodInfo) bool {
+	o, sc := &c.Observed, &c.Scenario
+	fail := func(sig, what string) {
+		d.rep.Fail(sig, what, "v2/restli/handler.go:ServeHTTP (PostRequest loop) / receive (PreRequest loop)", c, nil)
+	}
+	n := len(c.Filters)
+	pre, post := firstFailing(c.Filters, "pre"), firstFailing(c.Filters, "post")
+	failed := sc.Defect != "" || sc.Kind == "errresp" || sc.Kind == "plainerr" || sc.Kind == "panic" || sc.Kind == "panicerr"
+	// typed nil / nil element: the method returns normally and the failure shows when the result is used (inside the adapter,
+	// i.e. a failed call, or when it is serialized, i.e. after the PostRequest hooks): both readings are accepted here (the
+	// model decides per method kind)
+	ambiguous := sc.Kind == "typednil" || sc.Kind == "nilelem"
+	var want []string
+	for i := 0; i < n && (pre < 0 || i <= pre); i++ {
+		want = append(want, fmt.Sprintf("pre%d", i))
+	}
+	wantAlt := ""
+	if pre < 0 && !failed {
+		if ambiguous {
+			wantAlt = strings.Join(want, " ")
+		}
+		for i := n - 1; i >= 0 && i >= post; i-- {
+			want = append(want, fmt.Sprintf("post%d", i))
+		}
+	}
+	got := strings.Join(o.Hooks, " ")
+	if got != strings.Join(want, " ") && (wantAlt == "" || got != wantAlt) {
+		postRan := strings.Contains(got, "post")
+		switch {
+		case failed && pre < 0 && postRan:
+			fail("filter:post-ran-after-failure:"+sc.Kind+sc.Defect, "a PostRequest hook ran although the resource method failed (it must only run after a successful call)")
+		case pre >= 0 && postRan:
+			fail("filter:post-ran-after-pre-failure", "a PostRequest hook ran although a PreRequest hook failed")
+		default:
+			fail("filter:trace", "filter hooks did not run as required (PreRequest in order up to the first failure, PostRequest in reverse order after success up to the first failure): want ["+strings.Join(want, " ")+"]")
+		}
+	}
+	// the reply of a failing hook: a plain error is a failure status the client reports as an error; an error response is
+	// delivered like a resource's
+	hookFailure := func(which, kind string, status int, msg string) {
+		if strings.HasSuffix(kind, "-plain") {
+			if o.Status < 400 {
+				fail("filter:"+which+"-error:success-status", "a failing "+which+"Request hook is answered with a success status")
+			}
+			if o.Client == "ok" || o.Client == "created" {
+				fail("filter:"+which+"-error:client-ok", "a failing "+which+"Request hook is not reported to the caller as an error")
+			}
+			return
+		}
+		if o.Status != status || !o.ErrHeader {
+			fail("filter:"+which+"-errresp:status-or-header", "the error response of a failing "+which+"Request hook is not sent with its status and the error header")
+		}
+		if o.Client != "restli-error" || o.ClientErr == nil || o.ClientErr.Status == nil || int(*o.ClientErr.Status) != status ||
+			o.ClientErr.Message == nil || *o.ClientErr.Message != msg {
+			fail("filter:"+which+"-errresp:client", "the error response of a failing "+which+"Request hook does not reach the caller as a *restli.Error carrying it")
+		}
+	}
+	switch {
+	case pre >= 0:
+		if o.Invoked > 0 {
+			fail("filter:pre-failed:implementation-invoked", "the resource method ran although a PreRequest hook failed")
+		}
+		hookFailure("Pre", c.Filters[pre], filterPreStatus, filterPreRespMsg)
+		return true
+	case failed:
+		return false // the method's failure, exactly as without filters
+	case post >= 0:
+		if ambiguous {
+			if o.Status < 400 || o.Client == "ok" || o.Client == "created" {
+				fail("filter:post-error:success-status", "a failing PostRequest hook / an unusable result is answered as a success")
+			}
+			return true
+		}
+		if o.Invoked == 0 {
+			fail("filter:not-invoked", "the resource method did not run although no PreRequest hook failed")
+		}
+		hookFailure("Post", c.Filters[post], filterPostStatus, filterPostRespMsg)
+		return true
+	}
+	if sc.Kind == "value" && !o.Stamp {
+		for _, k := range c.Filters {
+			if k == "stamp" {
+				fail("filter:post-header-lost", "the header a PostRequest hook set is missing from a successful response")
+				break
+			}
+		}
+	}
+	return false
+}
+
 func (d *c08) runCase(e *env, mi *methodInfo, sc *scenario, desc c08Scenario, transport string) *c08Case {
 	var before *errFields
 	if sc.Err != nil {
@@ -511,7 +658,7 @@ func (d *c08) runCase(e *env, mi *methodInfo, sc *scenario, desc c08Scenario, tr
 	g := &genv{r: d.r.Fork(), tame: true}
 	args := genArgs(g, mi, m.Type())
 	cr := callClient(m, args)
-	c := &c08Case{Mount: e.Mount.Name, Transport: transport, Method: mi.ID(), Kind: mi.Kind, Name: mi.Name, Scenario: desc}
+	c := &c08Case{Mount: e.Mount.Name, Filters: e.Mount.Filters, Transport: transport, Method: mi.ID(), Kind: mi.Kind, Name: mi.Name, Scenario: desc}
 	c.Observed = observe(e, cr, sc.Err)
 	d.oracle(c, mi, before, true)
 	d.record(c, mi)
@@ -524,12 +671,15 @@ func (d *c08) record(c *c08Case, mi *methodInfo) {
 	d.rep.Count("transport=" + c.Transport)
 	d.rep.Count("register=" + c.Kind)
 	d.rep.Count("outcome=" + c.Scenario.Kind + c.Scenario.Defect)
+	if c.Scenario.Kind == "value" && c.Scenario.Defect == "" {
+		d.rep.Count(fmt.Sprintf("override=%d", c.Scenario.Override))
+	}
 	if c.Scenario.PanicVal != "" {
 		d.rep.Count("panic-value=" + c.Scenario.PanicVal)
 	}
 	d.rep.Count(fmt.Sprintf("status=%d", c.Observed.Status))
 	d.rep.Count("client=" + strings.SplitN(c.Observed.Client, ":", 2)[0])
-	key := c.Method + "|" + c.Scenario.Kind + "|" + c.Scenario.Defect + "|" + strconv.Itoa(c.Scenario.Override) + "|" + strconv.Itoa(c.Scenario.Created) + "|" + c.Scenario.Msg + "|" + c.Scenario.PanicVal
+	key := c.Method + "|" + strings.Join(c.Filters, ",") + "|" + c.Scenario.Kind + "|" + c.Scenario.Defect + "|" + strconv.Itoa(c.Scenario.Override) + "|" + strconv.Itoa(c.Scenario.Created) + "|" + c.Scenario.Msg + "|" + c.Scenario.PanicVal
 	if c.Scenario.Err != nil {
 		key += c.Scenario.Err.key()
 	}
@@ -542,7 +692,8 @@ func (d *c08) record(c *c08Case, mi *methodInfo) {
 
 func isCreate(mi *methodInfo) bool { return mi.Kind == "Create" || mi.Kind == "CreateWithReturnEntity" }
 
-func (d *c08) scenarios(e *env, mi *methodInfo, full bool, transport string) {
+// full: every outcome; !full: a subset; small: the handful of outcomes run on the servers with filters
+func (d *c08) scenarios(e *env, mi *methodInfo, full, small bool, transport string) {
 	mt := e.clientMethod(mi).Type()
 	_ = mt
 	mockT := reflect.ValueOf(mi.Res.Mock).Elem().FieldByName("Mock" + mi.GoName).Type()
@@ -556,10 +707,33 @@ func (d *c08) scenarios(e *env, mi *methodInfo, full bool, transport string) {
 		}
 		d.runCase(e, mi, sc, desc, transport)
 	}
-	// success, default and overridden status
+	// success, default and overridden status: another 2xx code, the code every request starts with (200), the protocol
+	// defaults of the other method kinds (201, and 204 where the method has no result to send)
 	run("value", 0, 0, "", nil)
 	run("value", 202, 0, "", nil)
+	run("value", 200, 0, "", nil)
+	if small {
+		run("plainerr", 0, 0, "plain failure 17", nil)
+		pk := panicKinds[0]
+		sc := &scenario{Kind: "panic", Msg: panicText(pk.fn), PanicFn: pk.fn, Created: -1, Rand: d.r.Fork(), Tame: true}
+		d.runCase(e, mi, sc, c08Scenario{Kind: "panic", Msg: sc.Msg, PanicVal: pk.name}, transport)
+		if ptrResult || sliceResult {
+			run("typednil", 0, 0, "", nil)
+		}
+		if nilElemApplicable(mi) {
+			run("nilelem", 0, 0, "", nil)
+		}
+		run("errresp", 0, 0, "", buildErr(0, 0))
+		run("errresp", 0, 0, "", buildErr(1, 404))
+		run("errresp", 202, 0, "", buildErr(3, 409))
+		run("errresp", 0, 0, "", buildErr(63, 503))
+		return
+	}
 	if full {
+		run("value", 201, 0, "", nil)
+		if !hasResult(mi) {
+			run("value", 204, 0, "", nil)
+		}
 		run("value", 203, 0, "", nil)
 		if isCreate(mi) {
 			run("value", 0, 201, "", nil)
@@ -582,6 +756,8 @@ func (d *c08) scenarios(e *env, mi *methodInfo, full bool, transport string) {
 	}
 	if full {
 		run("plainerr", 202, 0, "plain failure 31", nil)
+		// an error text with percent signs (percent-encoded keys, "100%"): it must arrive as it is, not be used as a format
+		run("plainerr", 0, 0, "disk is 100% full, no entity urn%3Ali%3A42 %", nil)
 	}
 	if ptrResult || sliceResult {
 		run("typednil", 0, 0, "", nil)
@@ -803,14 +979,16 @@ var bigKinds = map[string]bool{"Get": true, "Create": true, "Update": true, "Bat
 
 func runC08(cfg *hx.Config) {
 	d := &c08{cfg: cfg, r: hx.NewRand(cfg.Seed), bigDone: map[string]bool{}}
-	d.rep = hx.NewReport("every method of every resource of the family (12 resources through the REAL generator: collections keyed by int64 / string / " +
-		"typeref / enum / complex key, simple, action set, sub- and sub-sub-resources, return-entity variants, read-only fields) x outcome of the " +
+	d.rep = hx.NewReport("every method of every resource of the family (checks/family.py RESOURCES through the REAL generator: collections keyed by int64 / string / " +
+		"typeref / enum / complex key, simple, action set, sub- and sub-sub-resources, return-entity variants, read-only / create-only fields in every combination) x outcome of the " +
 		"implementation {value, overridden ctx.ResponseStatus, CreatedEntity.Status, typed nil, nil element, ErrorResponse with each of the 64 subsets of " +
 		"{status, message, serviceErrorCode+code, exceptionClass, errorDetails, docUrl+requestId+errorDetailType+stackTrace}, plain error, panic(string), " +
 		"panic with an error value, a runtime error (nil map write, index out of range), a struct, http.ErrAbortHandler, an *ErrorResponse, a Stringer; " +
 		"combinations with an overridden status; big error responses (message / stackTrace of 64 KiB, 1 MiB - 1 KiB, 1 MiB, 3 MiB, compared field by field at the " +
 		"client, oracle only)} x mounting {bare handler, ServeMux, prefixed server} (full product on the bare handler, a " +
-		"subset on the others), in-process through the serialized request plus a real-socket sample; malformed requests (bad key, missing required " +
+		"subset on the others), in-process through the serialized request plus a real-socket sample; servers with filters (lists of 1-3 filters whose PreRequest / PostRequest " +
+		"pass, add context values and response headers, fail with a plain error, fail with an *ErrorResponse) x every method x {value, overridden status, plain error, panic, typed nil, " +
+		"nil element, four error responses}; overridden statuses 202, 200 (the status every request starts with), 201, 203, 204 (methods without result); malformed requests (bad key, missing required " +
 		"parameter, undecodable body, unexpected body) per method; statuses outside 100..999 as probes. non-trivial = any outcome other than the plain value; " +
 		"distinct by (method, outcome, fields)")
 	d.sh = hx.NewShards(cfg.Out, "From Coq Require Import List ZArith.\nFrom Coq.Strings Require Import Byte.\nFrom GR Require Import Base.Bytes Gen.TablesStatus Http.Status Corr.C08Corr.\nImport ListNotations.\n", "C08Corr", 250)
@@ -820,7 +998,7 @@ func runC08(cfg *hx.Config) {
 		e := newEnv(m, clientCfg{})
 		for _, r := range rs {
 			for _, me := range r.Methods {
-				d.scenarios(e, me, mi == 0 || cfg.Thorough(), "in-process")
+				d.scenarios(e, me, mi == 0 || cfg.Thorough(), false, "in-process")
 				if mi == 0 {
 					d.malformed(e, me)
 					if bigKinds[me.Kind] && (cfg.Thorough() || !d.bigDone[me.Kind+"/in-process"]) {
@@ -832,12 +1010,22 @@ func runC08(cfg *hx.Config) {
 		}
 		e.close()
 	}
+	// servers with filters (every kind of PreRequest / PostRequest result, failing or not) x every method x a handful of outcomes
+	for _, m := range buildFilteredMountings(rs) {
+		e := newEnv(m, clientCfg{})
+		for _, r := range rs {
+			for _, me := range r.Methods {
+				d.scenarios(e, me, false, true, "in-process")
+			}
+		}
+		e.close()
+	}
 	// real sockets: every method, a handful of outcomes
 	{
 		e := newEnv(mounts[0], clientCfg{Socket: true})
 		for _, r := range rs {
 			for _, me := range r.Methods {
-				d.scenarios(e, me, false, "socket")
+				d.scenarios(e, me, false, false, "socket")
 				if bigKinds[me.Kind] && !d.bigDone[me.Kind+"/socket"] {
 					d.bigDone[me.Kind+"/socket"] = true
 					d.bigErrors(e, me, "socket")
